@@ -2300,6 +2300,7 @@ func (p *parser) checkExpr(x ast.Expr) ast.Expr {
 	case *ast.ElemEllipsis:
 	case *ast.NumberUnitLit:
 	case *ast.DomainTextLit:
+	case *ast.MatrixLit:
 	default:
 		// all other nodes are not proper expressions
 		p.errorExpected(x.Pos(), "expression", 3)
